@@ -5,15 +5,25 @@
   rc, ref) one atomic section per transition and is tied to the code by the scripted
   hook-point schedules of `./check C10`.  `step` is the code as it is now; `stepOld` is the
   code before the `fix:` commit 96a47b62 (done = Delete(key), stale ref abandoned).
+
+  On top of it: `ArenaFd.fstep` adds the descriptor table of the process (openTemp, Reopen
+  through /proc/self/fd/N, the Close calls; libindex/tempfile_linux.go) and `ArenaProxy.pstep`
+  adds FetchProxy (RealizeDescriptions with its errgroup, Close; fix 8f18b449) - both only ever
+  move the arena by transitions of `step` (`proxy_moves_are_arena_moves`), so every theorem
+  about `Sm.run step init ops` below holds under every interleaving of proxy calls too.
 -/
 import ClairModel.Proofs.Arena
 import ClairModel.Proofs.ArenaHeld
+import ClairModel.Proofs.ArenaRetry
+import ClairModel.Proofs.ArenaFd
+import ClairModel.Proofs.ArenaProxy
+import ClairModel.Proofs.ArenaProxyInv
 
 -- every variable of a property statement is bound explicitly: a misspelt name is an error, not a new variable
 set_option autoImplicit false
 
 namespace ClairModel.Props.C10
-open ClairModel ClairModel.Arena
+open ClairModel ClairModel.Arena ClairModel.ArenaFd ClairModel.ArenaProxy
 
 /-- Every state reachable by any interleaving of the atomic sections (any number of users,
     keys, failing servers, cancellations, stale references) satisfies the invariant. -/
@@ -204,6 +214,225 @@ example :
     let s := Sm.run step init [.spawn 0, .spawn 0, .enter 0, .enter 1, .fload 0 true, .fnet 0 true,
       .fstore 0, .fend 0, .ref 0, .val 0, .init 0 true, .ref 1, .val 1, .init 1 true]
     s.tasks[0]? = some (.holding 0 0) ∧ s.tasks[1]? = some (.holding 0 0) ∧ (s.rc 0).count = 2 := by
+  decide
+
+/-! ### RemoteFetchArena.Close -/
+
+/-- `RemoteFetchArena.Close` forgets every key and touches nothing else: no rc, no count, no
+    file, no task, no flight, no request. Whoever reads a layer keeps reading it (`reader_safe`
+    holds in every reachable state, also after it), and the last holder still closes the file
+    (`quiescent_clean_partial`). -/
+theorem arena_close_disturbs_no_reader (s : State) :
+    (step s .aclose).1.rc = s.rc ∧ (step s .aclose).1.tasks = s.tasks ∧ (step s .aclose).1.flight = s.flight ∧
+      (step s .aclose).1.hits = s.hits ∧ ∀ k, (step s .aclose).1.arena k = none :=
+  ⟨rfl, rfl, rfl, rfl, fun _ => rfl⟩
+
+/-- ... but the arena no longer knows the files its users hold: the next request for a digest
+    somebody holds goes to the server (documented: "Any outstanding Layers may cause keys to
+    be forgotten at unpredictable times"; `at_most_one_download_per_use_period` excludes it). -/
+theorem arena_close_under_a_holder_counterexample :
+    let pre : List Op := [.spawn 0, .enter 0, .fload 0 true, .fnet 0 true, .fstore 0, .fend 0, .ref 0, .val 0,
+      .init 0 true]
+    let post : List Op := [.aclose, .spawn 0, .enter 1, .fload 0 true, .fnet 0 true]
+    (Sm.run step init pre).tasks[0]? = some (.holding 0 0) ∧
+    (Sm.run step init (pre ++ post)).tasks[0]? = some (.holding 0 0) ∧
+    (Sm.run step init pre).hits 0 = 1 ∧ (Sm.run step init (pre ++ post)).hits 0 = 2 := by
+  decide
+
+/-- An orphaned file (finding orphan-after-cancel) that is in the map when the arena is
+    Closed can no longer be adopted by a later request: everybody is done, the map is empty,
+    the file stays open with count 0. -/
+theorem arena_close_strands_an_orphan_counterexample :
+    let ops : List Op := [.spawn 0, .enter 0, .fload 0 true, .fnet 0 true, .cancel 0, .fstore 0, .fend 0, .aclose]
+    (∀ p ∈ (Sm.run step init ops).tasks, p = .failed ∨ p = .closed) ∧ (Sm.run step init ops).arena 0 = none ∧
+      ((Sm.run step init ops).rc 0).fileOpen = true ∧ ((Sm.run step init ops).rc 0).count = 0 ∧
+      (Sm.run step init ops).orphans = [0] := by
+  decide
+
+/-! ### the stale-reference retry loop -/
+
+/-- The retry loop is bounded: a task sees `errStale` at most twice for every file of its
+    digest that has been closed - once for an rc it was handed before the file was closed, once
+    more if the flight it then joins had loaded that rc before it was closed.  (`stales t` is
+    the number of `errStale` answers of task `t`, see `stales_counts_errStale`; `deaths k` is
+    incremented exactly where `rc.dec` closes an open file of digest `k`; `skeys[t]` is the
+    digest task `t` was started for.) -/
+theorem stale_retries_bounded (ops : List Op) (t k : Nat)
+    (hk : (Sm.run step init ops).skeys[t]? = some k) :
+    (Sm.run step init ops).stales t ≤ 2 * (Sm.run step init ops).deaths k :=
+  stales_le_deaths ops t k hk
+
+/-- The ghost counter of the bound is the observable number of `errStale` answers. -/
+theorem stales_counts_errStale (ops : List Op) (t : Nat) :
+    (Sm.run step init ops).stales t = staleCount t init ops := by
+  rw [stales_eq_count t ops init]; simp [init]
+
+/-- ... and the loop makes progress under fairness: from any reachable state, a task at the
+    start of `do()` (fresh, or after a stale retry) whose digest has no flight in progress
+    ends with `Val = ok` when it and its flight run without another task's release in
+    between - it can only go round again if it is overtaken by a new close. -/
+theorem stale_retry_makes_progress (ops : List Op) (t k : Nat)
+    (ht : (Sm.run step init ops).tasks[t]? = some (.ready k))
+    (hf : (Sm.run step init ops).flight k = none) :
+    (Sm.trace step (Sm.run step init ops) (soloOps (Sm.run step init ops) t k)).getLast? = some .valOk :=
+  retry_progress (reachable_inv ops) ht hf
+
+/-! ### descriptors (libindex/tempfile_linux.go) -/
+
+/-- Every state of the descriptor machine satisfies its invariant. -/
+theorem descriptor_invariant (ops : List FOp) : FInv (Sm.run fstep finit ops) :=
+  freachable_inv ops
+
+/-- A reopened file is the file of the same entry: whatever private descriptor a task has
+    refers to the inode that the descriptor number of its rc's os.File names - the rc's own
+    temp file, still open - although Reopen finds the file by number and numbers are reused. -/
+theorem reopened_file_is_the_entrys_file (ops : List FOp) (n t i : Nat)
+    (hl : look (Sm.run fstep finit ops).tab n = some ⟨.priv t, i⟩) :
+    ∃ k r, ((Sm.run fstep finit ops).a.tasks[t]? = some (.opened k r) ∨
+            (Sm.run fstep finit ops).a.tasks[t]? = some (.holding k r)) ∧
+      ((Sm.run fstep finit ops).a.rc r).fileOpen = true ∧
+      look (Sm.run fstep finit ops).tab ((Sm.run fstep finit ops).rcNum r) = some ⟨.rc r, i⟩ :=
+  priv_is_entry_file (freachable_inv ops) hl
+
+/-- `Val` on an rc whose file is open succeeds and leaves the task with a descriptor on that
+    rc's file. -/
+theorem val_ok_gives_a_descriptor_on_the_entry (ops : List FOp) (t k r : Nat)
+    (ht : (Sm.run fstep finit ops).a.tasks[t]? = some (.reffed k r))
+    (ho : ((Sm.run fstep finit ops).a.rc r).fileOpen = true) :
+    (fstep (Sm.run fstep finit ops) (.base (.val t))).2 = .valOk ∧
+      ∃ n, look (fstep (Sm.run fstep finit ops) (.base (.val t))).1.tab n
+        = some ⟨.priv t, (Sm.run fstep finit ops).rcIno r⟩ :=
+  val_opens_entry_file (freachable_inv ops) ht ho
+
+/-- The hazard the `Fd() == -1` check under the rc lock excludes (seeded change C10-1): with
+    the descriptor number cached at open time and no staleness check, a task that was handed
+    rc 0 (digest 0) before its file was closed opens descriptor 0 again after the number has
+    been given to the temp file of digest 1: it "holds digest 0" and reads the bytes of digest 1.
+    On the machine of the code as it is the same history ends with `errStale`. -/
+theorem cached_descriptor_number_reopens_another_layer_counterexample :
+    let ops : List FOp := [.base (.spawn 0), .base (.spawn 0), .base (.enter 0), .base (.enter 1),
+      .base (.fload 0 true), .base (.fnet 0 true), .base (.fstore 0), .base (.fend 0),
+      .base (.ref 0), .base (.val 0), .base (.init 0 true), .base (.close 0),
+      .base (.spawn 1), .base (.enter 2), .base (.fload 1 true), .base (.fnet 1 true), .base (.fstore 1),
+      .base (.ref 1), .base (.val 1)]
+    (Sm.run fstepCached finit ops).a.tasks[1]? = some (.opened 0 0) ∧
+    ((Sm.run fstepCached finit ops).a.rc 0).fileOpen = false ∧
+    look (Sm.run fstepCached finit ops).tab 1 = some ⟨.priv 1, 1⟩ ∧
+    (Sm.run fstepCached finit ops).rcIno 0 = 0 ∧ (Sm.run fstepCached finit ops).rcIno 1 = 1 ∧
+    ((Sm.run fstepCached finit ops).a.rc 1).key = 1 ∧
+    (Sm.trace fstep finit ops).getLast? = some .valStale := by
+  decide
+
+/-- Leak accounting on the error paths: a temp file that is not (yet) in the arena has a
+    descriptor only while its flight is between openTemp and the end of the transfer.  After
+    every error exit of fetchUnlinkedFile (bad input, openTemp failure, request error, bad
+    status, content-type or compression mismatch, short body, checksum mismatch, cancelled
+    leader - the flight is in phase `failed`) and after the Swap there is none. -/
+theorem failed_fetch_leaves_no_temp_descriptor (ops : List FOp) (n k i : Nat)
+    (hl : look (Sm.run fstep finit ops).tab n = some ⟨.tmp k, i⟩) :
+    ∃ f, (Sm.run fstep finit ops).a.flight k = some f ∧ (f.phase = .requesting ∨ f.phase = .fetched) :=
+  (freachable_inv ops).tmpOnly n k i hl
+
+/-- Once everybody is done the arena code owns no descriptor: what is left in the table
+    belongs to the rest of the process.  **Partial** in the same way as
+    `quiescent_clean_partial` (the orphaned file of finding orphan-after-cancel keeps its
+    descriptor). -/
+theorem quiescent_no_descriptors_partial (ops : List FOp)
+    (hq : Quiescent (Sm.run fstep finit ops).a) (ho : (Sm.run fstep finit ops).a.orphans = [])
+    (n : Nat) (e : Ent) (hl : look (Sm.run fstep finit ops).tab n = some e) : e.owner = .ext :=
+  quiescent_no_descriptors (freachable_inv ops) hq ho n e hl
+
+/-! ### FetchProxy: RealizeDescriptions, its errgroup, Close -/
+
+/-- Whatever RealizeDescriptions, its errgroup (sibling cancellation, the GOMAXPROCS limit,
+    the cleanup after an error) and FetchProxy.Close do, the arena only moves by the
+    transitions of `step` and the descriptor table by those of `fstep`: the state after any
+    history of proxy calls is a reachable state of the machines below. -/
+theorem proxy_moves_are_arena_moves (ops : List POp) :
+    (∃ aops : List Op, (Sm.run pstep pinit ops).f.a = Sm.run step init aops) ∧
+    (∃ fops : List FOp, (Sm.run pstep pinit ops).f = Sm.run fstep finit fops) :=
+  ⟨prun_arena true ops, prun_reach true ops pinit⟩
+
+/-- Every state of the proxy machine satisfies the arena, descriptor and proxy invariants. -/
+theorem proxy_invariants (ops : List POp) :
+    Inv (Sm.run pstep pinit ops).f.a ∧ FInv (Sm.run pstep pinit ops).f ∧ PInv (Sm.run pstep pinit ops) :=
+  ⟨prun_inv true ops, prun_finv true ops, preachable_pinv ops⟩
+
+/-- `p.Close()` (no call running): it never finds a handle that is already closed (no "Layer
+    closed twice"), closes every handle of the proxy, gives all of them up, and touches no task
+    and no handle of anybody else. -/
+theorem proxy_close_closes_each_handle_once (ops : List POp) (p : Nat) (q : Proxy)
+    (hq : (Sm.run pstep pinit ops).px[p]? = some q) (hc : q.call = none) :
+    let s := Sm.run pstep pinit ops
+    (pstep s (.pclose p)).2 = .closed (tasksOf s p .cleanup).length ∧
+    (∀ t, s.own t = some (p, .cleanup) → (pstep s (.pclose p)).1.f.a.tasks[t]? = some .closed) ∧
+    (∀ t, (pstep s (.pclose p)).1.own t ≠ some (p, .cleanup)) ∧
+    (∀ t, s.own t ≠ some (p, .cleanup) →
+      (pstep s (.pclose p)).1.f.a.tasks[t]? = s.f.a.tasks[t]? ∧ (pstep s (.pclose p)).1.own t = s.own t) :=
+  pclose_facts (preachable_pinv ops) p q hq hc
+
+/-- A second `p.Close()` finds nothing to do (before fix 8f18b449 it ran `Layer.Close` again on
+    every handle: "Layer closed twice" panic, see the counterexample below). -/
+theorem proxy_close_twice_is_harmless (ops : List POp) (p : Nat) (q : Proxy)
+    (hq : (Sm.run pstep pinit ops).px[p]? = some q) (hc : q.call = none) :
+    (pstep (pstep (Sm.run pstep pinit ops) (.pclose p)).1 (.pclose p)).2 = .closed 0 := by
+  have h := preachable_pinv ops
+  generalize Sm.run pstep pinit ops = s at hq h ⊢
+  have h1 := pclose_facts h p q hq hc
+  have hpx : (pstep s (.pclose p)).1.px = s.px := by
+    simp only [pstep, pstepG, hq, hc]
+    repeat' split
+    all_goals rfl
+  have hq1 : (pstep s (.pclose p)).1.px[p]? = some q := by rw [hpx]; exact hq
+  have hnil : tasksOf (pstep s (.pclose p)).1 p .cleanup = [] := by
+    apply List.filter_eq_nil_iff.2
+    intro t _
+    simp only [beq_iff_eq]
+    exact h1.2.2.1 t
+  have h2 := (pclose_facts (pinv_step h (.pclose p)) p q hq1 hc).1
+  rw [hnil] at h2
+  exact h2
+
+/-- A RealizeDescriptions call that ends in an error keeps no handle: the closures that had
+    succeeded are closed by the call itself, all of them are given up. -/
+theorem failed_realize_keeps_no_handle (ops : List POp) (p : Nat) (c : Call)
+    (hfin : c.started = c.descs.length ∧
+      (tasksOf (Sm.run pstep pinit ops) p .call).all (isDone (Sm.run pstep pinit ops).f.a) = true)
+    (hfail : (tasksOf (Sm.run pstep pinit ops) p .call).any (isFailed (Sm.run pstep pinit ops).f.a) = true)
+    (t : Nat) (ht : (Sm.run pstep pinit ops).own t = some (p, .call)) :
+    (finishCall true (Sm.run pstep pinit ops) p c).2 = none ∧
+    isHolding (finishCall true (Sm.run pstep pinit ops) p c).1.f.a t = false ∧
+    (finishCall true (Sm.run pstep pinit ops) p c).1.own t = none :=
+  failed_call_keeps_no_handle (preachable_pinv ops) p c hfin hfail t ht
+
+/-- No handle is ever dropped from a cleanup list without being closed, and every handle in
+    a cleanup list is held (nobody else has closed it). -/
+theorem proxy_never_drops_a_handle (ops : List POp) :
+    (Sm.run pstep pinit ops).lost = [] ∧
+    ∀ t p, (Sm.run pstep pinit ops).own t = some (p, .cleanup) →
+      isHolding (Sm.run pstep pinit ops).f.a t = true :=
+  ⟨(preachable_pinv ops).noLost, (preachable_pinv ops).cleanupHolding⟩
+
+/-- False of the code before fix 8f18b449: a second RealizeDescriptions on the same proxy
+    overwrote p.cleanup. After Realize, Realize, Close the first layer is still referenced
+    (count 1, file open, arena entry), belongs to nobody and can be closed by nobody; on the
+    repaired machine the same history ends clean. -/
+theorem second_realize_dropped_the_first_handles_counterexample :
+    let b : Op → POp := fun o => .base (.base o)
+    let ops : List POp := [.pnew, .realize 0 1 [0], b (.enter 0), b (.fload 0 true), b (.fnet 0 true),
+      b (.fstore 0), b (.fend 0), b (.ref 0), b (.val 0), b (.init 0 true),
+      .realize 0 1 [0], b (.enter 1), b (.fload 0 true), b (.fend 0), b (.ref 1), b (.val 1), b (.init 1 true),
+      .pclose 0]
+    ((Sm.run pstepOld pinit ops).lost = [0] ∧
+      (Sm.run pstepOld pinit ops).f.a.tasks[0]? = some (.holding 0 0) ∧
+      (Sm.run pstepOld pinit ops).own 0 = none ∧ (Sm.run pstepOld pinit ops).f.a.arena 0 = some 0 ∧
+      ((Sm.run pstepOld pinit ops).f.a.rc 0).count = 1 ∧
+      ((Sm.run pstepOld pinit ops).f.a.rc 0).fileOpen = true) ∧
+    ((Sm.run pstep pinit ops).f.a.tasks = [.closed, .closed] ∧ (Sm.run pstep pinit ops).f.a.arena 0 = none ∧
+      counts (Sm.run pstep pinit ops).f.tab = (0, 0, 0)) ∧
+    -- and a second Close ran Layer.Close again (panic); now it finds nothing to do
+    (Sm.trace pstepOld pinit (ops ++ [.pclose 0])).getLast? = some .panic ∧
+    (Sm.trace pstep pinit (ops ++ [.pclose 0])).getLast? = some (.closed 0) := by
   decide
 
 end ClairModel.Props.C10
